@@ -250,10 +250,16 @@ impl ToZinc for Uri {
 
 impl ToZinc for XStr {
     fn to_zinc<W: std::io::Write>(&self, writer: &mut W) -> Result<()> {
+        // Capitalize the type name, whatever its first character is
+        let mut type_chars = self.r#type.chars();
+        let initial = type_chars
+            .next()
+            .map(|c| c.to_uppercase().to_string())
+            .unwrap_or_default();
         writer.write_fmt(format_args!(
             "{}{}(\"{}\")",
-            self.r#type[0..1].to_uppercase(),
-            &self.r#type[1..],
+            initial,
+            type_chars.as_str(),
             self.value
         ))?;
         Ok(())
